@@ -40,8 +40,12 @@ func buildLifted(mode Mode, asserts []*term.Term) *Script {
 		fmt.Fprintf(&body, "(define-fun %s () Real %s)\n", nn, n)
 		dd := one
 		if d != one {
-			dd = fmt.Sprintf("t!%d!d", t.ID)
-			fmt.Fprintf(&body, "(define-fun %s () Real %s)\n", dd, d)
+			if !strings.HasPrefix(d, "(") {
+				dd = d // an existing name: keep it so that equal denominators are recognised
+			} else {
+				dd = fmt.Sprintf("t!%d!d", t.ID)
+				fmt.Fprintf(&body, "(define-fun %s () Real %s)\n", dd, d)
+			}
 		}
 		fr[t.ID] = frac{nn, dd}
 	}
